@@ -532,6 +532,20 @@ def linebreak_violation(base, detail, w, repo_root):
             base['replay'] = dict(rep, native=out)
             base.update({'detail': detail + '; REPRODUCED natively on %r: %s' % (text, out['detail'][:200]), 'suffix': ''})
             return base
+    # line numbers: the documented lexical grammar (C08.lex) counts CRLF as one line break
+    for text in ('a%sb' % w, '(a / b%s :r c)' % w, '# x%s(a / b)' % w):
+        env = dict(os.environ, PYTHONPATH=repo_root + os.pathsep + VERIF, VERIF_REPO=repo_root, PYTHONDONTWRITEBYTECODE='1')
+        rep = {'check': 'C08.lex', 'args': {'$d': [['s', text], ['triple', False]]}}
+        pr = subprocess.run([PY_PENMAN, '-m', 'vlib.bounded.drv', '--replay', json.dumps(rep)],
+                            cwd=VERIF, env=env, capture_output=True, text=True, timeout=120)
+        try:
+            out = json.loads(pr.stdout.strip().splitlines()[-1])
+        except Exception:
+            continue
+        if out.get('detail') not in (None, 'SKIP') and out.get('finding') is None:
+            base['replay'] = dict(rep, native=out)
+            base.update({'detail': detail + '; REPRODUCED natively on %r: %s' % (text, out['detail'][:200]), 'suffix': ''})
+            return base
     base.update({'detail': detail + '; separator %r: string and file input agree on the probes' % (w,),
                  'suffix': 'no-failing-input-found'})
     return base
